@@ -285,7 +285,7 @@ func (e *Engine) intrinsic(st *State, f *Frame, fn *ssa.Function, args []Value, 
 	// ---- formatting: opaque strings ----
 	case "fmt.Sprintf", "fmt.Sprint", "fmt.Sprintln":
 		e.res.Stubs[full]++
-		return ret(e.opaqueStr("fmt")), true
+		return ret(e.opaqueStr(st, "fmt")), true
 	case "fmt.Errorf":
 		e.res.Stubs[full]++
 		return ret(e.newOpaqueError(st, "fmt.Errorf")), true
@@ -297,7 +297,7 @@ func (e *Engine) intrinsic(st *State, f *Frame, fn *ssa.Function, args []Value, 
 		return ret(st.load(&PtrVal{obj: p.obj, path: []int{0}})), true
 	case "strconv.Itoa", "strconv.Quote", "strconv.FormatInt", "strconv.FormatUint":
 		e.res.Stubs[full]++
-		return ret(e.opaqueStr("strconv")), true
+		return ret(e.opaqueStr(st, "strconv")), true
 	case "strconv.AppendInt", "strconv.AppendUint", "strconv.AppendQuote", "strconv.AppendFloat", "strconv.AppendBool":
 		// append an opaque token of symbolic length (1..24 bytes) to the destination
 		e.res.Stubs[full]++
@@ -339,7 +339,7 @@ func errorStringPtr(e *Engine) types.Type {
 }
 
 func (e *Engine) newOpaqueError(st *State, hint string) Value {
-	id := st.newObj(&StructVal{f: []Value{e.opaqueStr(hint)}}, nil, hint)
+	id := st.newObj(&StructVal{f: []Value{e.opaqueStr(st, hint)}}, nil, hint)
 	return &IfaceVal{t: errorStringPtr(e), v: &PtrVal{obj: id}}
 }
 
